@@ -47,12 +47,12 @@ ArchiveLPFails ==
     (IF WellFormed(inst) THEN {} ELSE {"file_is_well_formed_instance"})
     \cup (IF T.status = status THEN {} ELSE {"status_iff_feasible"})
     \cup (IF status = "Optimal" /\ T.status = "Optimal"
-          THEN (IF T.matching \in Feasible(inst, opts.pc, FALSE) THEN {} ELSE {"matching_valid"})
+          THEN (IF Valid(inst, T.matching, opts.pc) THEN {} ELSE {"matching_valid"})
                \cup (IF opts.stab /\ ~(Len(T.matching) = inst.ns /\ IsAssignment(inst, T.matching) /\ Stable(inst, T.matching))
                      THEN {"matching_stable"} ELSE {})
                \cup (IF T.matching \in F THEN {} ELSE {"matching_lexoptimal"})
                \cup (IF opts.stab /\ T.stabline # "True" THEN {"stability_correct_true"} ELSE {})
-               \cup (IF T.matching \in Feasible(inst, opts.pc, FALSE) /\
+               \cup (IF Valid(inst, T.matching, opts.pc) /\
                         ~(LET m == T.matching IN
                           /\ T.stats.cost = CostS(inst, m) /\ T.stats.cost_sq = SqCostS(inst, m)
                           /\ T.stats.degree = Degree(inst, m) /\ T.stats.profile = Profile(inst, m)
@@ -72,13 +72,13 @@ LPFails ==
     \cup (IF T.exception = "" THEN {} ELSE {"no_exception"})
     \cup (IF T.status = status THEN {} ELSE {"status_iff_feasible"})
     \cup (IF status = "Optimal" /\ T.status = "Optimal"
-          THEN (IF T.matching \in Feasible(inst, opts.pc, FALSE) THEN {} ELSE {"matching_valid"})
+          THEN (IF Valid(inst, T.matching, opts.pc) THEN {} ELSE {"matching_valid"})
                \cup (IF opts.stab /\ ~(Len(T.matching) = inst.ns /\ IsAssignment(inst, T.matching) /\ Stable(inst, T.matching))
                      THEN {"matching_stable"} ELSE {})
                \cup (IF T.matching \in F THEN {} ELSE {"matching_lexoptimal"})
                \cup (IF T.objvals = vals THEN {} ELSE {"optimum_values"})
                \cup (IF opts.stab /\ T.stabline # "True" THEN {"stability_correct_true"} ELSE {})
-               \cup (IF T.matching \in Feasible(inst, opts.pc, FALSE) /\ T.stats # StatsOf(inst, T.matching)
+               \cup (IF Valid(inst, T.matching, opts.pc) /\ T.stats # StatsOf(inst, T.matching)
                      THEN {"printed_statistics"} ELSE {})
           ELSE (IF T.matching = <<>> THEN {} ELSE {"no_matching_when_infeasible"}))
 BFFails ==
@@ -91,5 +91,5 @@ Fails == IF phase = "refused" THEN {"loads_without_error"}
          ELSE IF opts.bf THEN BFFails ELSE LPFails
 
 Verdict == Judged => PrintT("VERDICT " \o ToJson([tid |-> tid, fails |-> SetToSeq(Fails),
-                                                 nF0 |-> IF phase = "refused" \/ opts.bf THEN 0 ELSE Cardinality(Feasible(inst, opts.pc, opts.stab))]))
+                                                 nF0 |-> IF phase = "refused" \/ opts.bf THEN 0 ELSE Cardinality(F)]))     \* size of the final admissible set
 =============================================================================
